@@ -89,14 +89,24 @@ def register(db):
         ], header="self.attrs.items()")],
         properties=P + ["C15"],
     ))
+    BA = "ElementNode.bind_any_attr"
+    ANY_OF_Q = "uf('XmlMeta.find_any_attributes', 'u:XmlVar|None', self.meta, qname)"
+    DECL_OF_Q = "uf('XmlMeta.find_attribute', 'u:XmlVar|None', self.meta, qname)"
     db.add(Contract(
         f"{EL}.bind_attrs", variant="any-attributes",
         params={"self": element_node, "params": "opaque:PyDict"},
         requires=["forall('str', lambda q: implies(q in self.attrs, len(q) > 0))"],
         ensures=[],
         raises={"ParserError": True},
-        loops=[Loop(invariants=[], header="self.attrs.items()")],
-        properties=["C15"],
+        loops=[Loop(invariants=[], header="self.attrs.items()",
+                    step=[("an-attribute-goes-to-the-wildcard-only-if-the-wildcard-admits-that-attribute",
+                           f"implies(called('{BA}') == 1, call_arg('{BA}', 2) is {ANY_OF_Q} and call_arg('{BA}', 3) == qname and call_arg('{BA}', 4) == value)"),
+                          ("an-undeclared-attribute-the-wildcard-admits-is-bound-to-it",
+                           f"implies({DECL_OF_Q} is None and {ANY_OF_Q} is not None, called('{BA}') == 1)"),
+                          ("at-most-one-binding-per-attribute", f"called('{BA}') + called('ElementNode.bind_attr') <= 1")])],
+        properties=["C15", "C09"],
+        note="attribute order (C09): what happens to one attribute depends on that attribute (and, for declared fields, on "
+             "whether the field is already taken), never on the undeclared attributes written before it",
     ))
 
     # ------------------------------------------------------------------ conversion failures
